@@ -31,16 +31,30 @@ type evInfo struct {
 	salt, info []byte
 }
 
+// tsess / tsessB are Taggable structs (no pointer tags of their own): the values inside them are reached through the
+// Taggable branch of the walker and must be keyed like every other value of the event.
+type tsess struct {
+	V2 []byte `class:"sensitive,hmac-sha256"`
+}
+
+func (t *tsess) Tags() ([]encrypt.PointerTag, error) { return nil, nil }
+
+type tsessB struct {
+	V2 string `class:"sensitive,hmac-sha256"`
+	V3 []byte `class:"sensitive,encrypt"`
+}
+
+func (t *tsessB) Tags() ([]encrypt.PointerTag, error) { return nil, nil }
+
 type evA struct {
-	inf *evInfo
-	V1  string `class:"sensitive,encrypt"`
-	V2  []byte `class:"sensitive,hmac-sha256"`
+	inf  *evInfo
+	V1   string `class:"sensitive,encrypt"`
+	Sess *tsess
 }
 type evB struct {
-	inf *evInfo
-	V1  string `class:"sensitive,hmac-sha256"`
-	V2  string `class:"sensitive,hmac-sha256"`
-	V3  []byte `class:"sensitive,encrypt"`
+	inf  *evInfo
+	V1   string `class:"sensitive,hmac-sha256"`
+	Sess *tsessB
 }
 
 func (e *evA) EventId() string  { return e.inf.id }
@@ -240,7 +254,7 @@ func RunKeys(outFile string, seed int64, n int) (*Report, error) {
 						a := plainA{V1: string(pick()), V2: append([]byte{}, pick()...)}
 						er.origs = [][]byte{[]byte(a.V1), append([]byte{}, a.V2...)}
 						if ei != nil {
-							payload = &evA{inf: ei, V1: a.V1, V2: a.V2}
+							payload = &evA{inf: ei, V1: a.V1, Sess: &tsess{V2: a.V2}}
 						} else {
 							payload = &a
 						}
@@ -248,7 +262,7 @@ func RunKeys(outFile string, seed int64, n int) (*Report, error) {
 						b := plainB{V1: string(pick()), V2: string(pick()), V3: append([]byte{}, pick()...)}
 						er.origs = [][]byte{[]byte(b.V1), []byte(b.V2), append([]byte{}, b.V3...)}
 						if ei != nil {
-							payload = &evB{inf: ei, V1: b.V1, V2: b.V2, V3: b.V3}
+							payload = &evB{inf: ei, V1: b.V1, Sess: &tsessB{V2: b.V2, V3: b.V3}}
 						} else {
 							payload = &b
 						}
@@ -262,11 +276,11 @@ func RunKeys(outFile string, seed int64, n int) (*Report, error) {
 						case *plainA:
 							er.outs = []string{p.V1, string(p.V2)}
 						case *evA:
-							er.outs = []string{p.V1, string(p.V2)}
+							er.outs = []string{p.V1, string(p.Sess.V2)}
 						case *plainB:
 							er.outs = []string{p.V1, p.V2, string(p.V3)}
 						case *evB:
-							er.outs = []string{p.V1, p.V2, string(p.V3)}
+							er.outs = []string{p.V1, p.Sess.V2, string(p.Sess.V3)}
 						}
 					} else {
 						er.nilOut = true
